@@ -89,12 +89,14 @@ def run(ctx):
     for i, (kind, each, ops) in enumerate(scripts):
         for c in CACHES:
             cases.append((ddgen.header(f"s{i}c{c}", kind, cap=1 << 15, cache=c, snap_each=each), ops))
+        # cache-free reference: a collection (= apply cache cleared) before every operation
+        cases.append((ddgen.header(f"s{i}cG", kind, cap=1 << 15, cache=16, snap_each=each, extra="gcall=1"), ops))
     args = ["--props", "C02,C04,C09,C10,C12,C13"]
     ok, bad, digests = vf.lockstep_sharded(ctx, binp, drv, cases, drv_args=args)
     badmap = {cid: msg for cid, msg in bad}
     nviol = 0
     for i, (kind, each, ops) in enumerate(scripts):
-        ids = [f"s{i}c{c}" for c in CACHES]
+        ids = [f"s{i}c{c}" for c in CACHES] + [f"s{i}cG"]
         ds = {cid: digests.get(cid) for cid in ids}
         bads = [cid for cid in ids if cid in badmap]
         differ = len(set(ds.values())) > 1
@@ -122,11 +124,11 @@ def run(ctx):
     ctx.stats["scripts"] = len(scripts)
     ctx.stats["distinct_nontrivial"] = len({tuple(o) for _, _, o in scripts})
     ctx.stats["wrong_under_every_capacity"] = sum(
-        1 for i in range(len(scripts)) if all(f"s{i}c{c}" in badmap for c in CACHES))
+        1 for i in range(len(scripts)) if all(f"s{i}c{c}" in badmap for c in CACHES) and f"s{i}cG" in badmap)
     ctx.samples = [{"kind": k, "ops": o[:14] + ["..."]} for k, _, o in scripts[:2] + scripts[-1:]]
     vf.write_evidence(
         ctx, "proof",
-        rule="script = operation list (operator-pair scripts: every ordered pair of the 8 Boolean resp. 6 arithmetic operators issued back to back on the same operands incl. swapped operands, repeated after gc/set_var_order/add_vars; random histories); each script runs under apply-cache capacities 1, 2, 16, 65536; compared: per-script digest of all result value tables, node counts, counts; kinds bdd, bcdd, zbdd, mtbdd. non-trivial = every script; distinct = distinct op lists",
+        rule="script = operation list (operator-pair scripts: every ordered pair of the 8 Boolean resp. 6 arithmetic operators issued back to back on the same operands incl. swapped operands, repeated after gc/set_var_order/add_vars; random histories); each script runs under apply-cache capacities 1, 2, 16, 65536 and once with a collection (apply cache cleared) before every operation as the cache-free reference; compared: per-script digest of all result value tables, node counts, counts; kinds bdd, bcdd, zbdd, mtbdd. non-trivial = every script; distinct = distinct op lists",
         checker_cmd="make -C coq Props/C06.vo (coqc 8.16.1) + Print Assumptions audit; ./check C06",
         extra_cov={"cases_ok": ok, "cases_bad": len(bad), "capacities": CACHES, "tier": ctx.tier})
 
